@@ -38,7 +38,16 @@ pub fn roundtrip_subject(c: &mut Choices, log: &mut CaseLog, sub: &Subject) -> C
     log.hash = fnv(format!("{}|{:?}", sub.text, values).as_bytes());
     log.sample = Some(describe(&sub.text, &values[0]));
 
-    let libvals: Vec<_> = values.iter().map(|v| to_lib(&sub.node, v, &sub.env)).collect();
+    let mut libvals: Vec<_> = values.iter().map(|v| to_lib(&sub.node, v, &sub.env)).collect();
+    // a record value names its fields: their order in the value is free (one case in four presents
+    // them in another order; derived from the case, no extra choice is drawn)
+    let order_seed = fnv(format!("{}|{:?}|order", sub.text, values).as_bytes());
+    if order_seed % 4 == 0 {
+        for lv in libvals.iter_mut() {
+            permute_records(lv, order_seed);
+        }
+        log.label("record_fields_in_other_order");
+    }
     let mut encodings: Vec<Vec<u8>> = vec![];
     for validate in [true, false] {
         let w = GenericDatumWriter::builder(&sub.schema)
@@ -99,6 +108,25 @@ pub fn roundtrip_subject(c: &mut Choices, log: &mut CaseLog, sub: &Subject) -> C
         }
     }
     Ok(())
+}
+
+fn permute_records(v: &mut apache_avro::types::Value, seed: u64) {
+    use apache_avro::types::Value;
+    match v {
+        Value::Record(items) => {
+            if items.len() >= 2 {
+                let k = (seed % items.len() as u64) as usize;
+                if seed & 0x100 == 0 { items.rotate_left(k.max(1)) } else { items.reverse() }
+            }
+            for (_, x) in items.iter_mut() {
+                permute_records(x, seed.rotate_left(7));
+            }
+        }
+        Value::Array(a) => a.iter_mut().for_each(|x| permute_records(x, seed.rotate_left(3))),
+        Value::Map(m) => m.values_mut().for_each(|x| permute_records(x, seed.rotate_left(5))),
+        Value::Union(_, x) => permute_records(x, seed.rotate_left(11)),
+        _ => {}
+    }
 }
 
 pub fn dispatch(campaign: &str, c: &mut Choices, log: &mut CaseLog) -> Option<CaseResult> {
